@@ -16,6 +16,20 @@ def val(p):
     return (list(p.ival) if p.ival else [], p.size)
 
 
+def scribble(p):
+    """overwrite a returned Poly / coefficient in place: results must be independent of operands and of later results"""
+    try:
+        if hasattr(p, 'ival') and isinstance(p.ival, list):
+            for i in range(len(p.ival)):
+                p.ival[i] = (p.ival[i] + 1) & (p.mask if p.mask != -1 else 0xff)
+            p.ival.append(1)
+        elif hasattr(p, 'ival'):
+            p.ival = p.ival ^ p.mask
+            p.size = p.size + 1
+    except Exception:
+        pass
+
+
 def vectors(k, maxdim):
     out = []
     for d in range(maxdim + 1):
@@ -63,6 +77,13 @@ def run_binary(ctx, pt):
             for op, f in OPS.items():
                 r = ctx.attempt(lambda: val(apply_op(op, A, B)))
                 ctx.eq('C16/%s' % op, r, ('ok', ([f(p, q, m) for p, q in zip(ex, ey)], k)))
+                if len(x) != len(y) and op in ('add', 'xor'):
+                    # padding coefficients handed out by e() / a result must not be shared state: scribble on them, evaluate again
+                    for P in (A, B):
+                        scribble(P.e(len(P.ival) + 1))
+                    scribble(apply_op(op, A, B))
+                    r = ctx.attempt(lambda: val(apply_op(op, A, B)))
+                    ctx.eq('C16/%s/result-shared-with-later-evaluation' % op, r, ('ok', ([f(p, q, m) for p, q in zip(ex, ey)], k)))
             r = ctx.attempt(lambda: val(A // B))
             ctx.eq('C16/concat', r, ('ok', (x + y, k)))
             ctx.ok('C16/operand-mutated', val(A) == (x, k) and val(B) == (y, k), (val(A), val(B)))
@@ -85,6 +106,15 @@ def run_unary(ctx, pt):
     ctx.eq('C16/construct', val(A), (a, k))
     ctx.eq('C16/dim', (A.dim, len(A)), (len(a), len(a)))
     ctx.eq('C16/copy', val(Poly(A)), (a, k))
+    for nd in (len(a) + 2, max(1, len(a) - 1)):
+        C = Poly(A, dim=nd)
+        ctx.eq('C16/copy-with-dim', (val(C), val(A)), (((a + [0, 0])[:nd] if nd > len(a) else a[:nd], k), (a, k)))
+        scribble(C)
+        ctx.eq('C16/copy-with-dim/aliases-its-source', val(A), (a, k))
+    for i in range(len(a)):
+        g = A[i]
+        scribble(g)
+        ctx.eq('C16/getitem-int/result-aliases-its-source', (val(A), val(A[i])), ((a, k), ([a[i]], k)))
     r = ctx.attempt(lambda: val(-A))
     ctx.eq('C16/neg', r, ('ok', ([(-x) & m for x in a], k)))
     r = ctx.attempt(lambda: val(A + (-A)))
@@ -135,6 +165,12 @@ def run_unary(ctx, pt):
                             X[st:sp:step] = V
                             return val(X), val(V)
                         ctx.eq('C16/setitem-slice-list', ctx.attempt(f1), ('ok', (na, k)))
+                        if len(idx) >= 2:
+                            # a value shorter than the selection: whatever the target becomes, the value itself stays as it was
+                            V = P_(v[:-1], k)
+                            X = P_(a, k)
+                            ctx.attempt(lambda: X.__setitem__(slice(st, sp, step), V))
+                            ctx.eq('C16/setitem-slice-poly/value-changed', val(V), (list(v[:-1]), k))
                         ctx.eq('C16/setitem-slice-poly', ctx.attempt(f2), ('ok', ((na, k), (list(v), k))))
     if d <= 4:
         for ln in range(1, 4):
